@@ -199,6 +199,21 @@ CHECKS["C17"] = dict(
     technique="Coq proof (operation invariant over event histories) + model/implementation correspondence in virtual time",
 )
 
+CHECKS["C01"] = dict(
+    category="proof",
+    text=("Coq theorem about the composed system: the host (the C05 host model itself, evolving only through host_step) joined to a "
+          "specification-conforming nondeterministic NCP with transmit window K <= 7 by two FIFO queues whose head can be delivered, dropped, "
+          "duplicated, detectably corrupted, or stalled past the timeout: for EVERY label list, the payloads handed up on each side are a "
+          "PREFIX of what the other side submitted (exactly once, in order), a send that completed OK was delivered exactly once, any send at "
+          "most once, and removing caller cancellations changes no delivery, wire frame or other completion; K = 8 is shown to break it. "
+          "Refinement of an abstract sliding-window invariant (3-bit numbers) in 1 700 lines. The host half is tied to the real AshProtocol "
+          "by co-simulation against a spec-derived NCP over faulty FIFO lines (random label schedules, windows 1..3, cancellations, "
+          "timeouts), replayed event by event in the host model; end-to-end delivery is also judged on every run."),
+    design_ref="DESIGN.md section 6 C01",
+    technique="Coq refinement proof (sliding-window invariant over all label sequences) + host-half co-simulation correspondence",
+    note=TB + "; FIFO lines, one epoch per run; ACK racing the timeout in one loop iteration not modelled; the NCP of the theorem is a relation, the NCP of the experiment a Python simulator; Print Assumptions lists PrimFloat kernel primitives only",
+)
+
 NOT_YET = {}
 
 
